@@ -268,3 +268,4 @@ MANIFEST = {
             'expected prefix. Exploration.',
     'note': 'Trusted: the three refusal rules as stated in the property; fault injector of C14.',
 }
+MANIFEST['text'] += (' ' + '15% of the parser cases carry -bf; solved cases inject transient or persistent failures, and those without a failure also check the lexicographic optimum (extras kept with their criterion).')
